@@ -48,13 +48,14 @@ def run(chk):
     chk.assume('rotating-disk spec: the disk angle under the beam at offset dt from the pulse is A(dt) = beam_position + phase - omega*dt (mod 2 pi), '
                'omega = 2 pi f; validated against the real class on random choppers in the bounded stand-in')
     mod = load()
-    saved = mod._check_edges
+    saved = getattr(mod, '_check_edges', None)
     try:
         chk.section('time offsets', time_offsets, mod)
         chk.section('_source_phase_factor', source_phase_factor, mod)
         chk.section('from_disk_chopper', from_disk_chopper, mod)
     finally:
-        mod._check_edges = saved
+        if saved is not None:
+            mod._check_edges = saved
     slit_validation(chk)
     bounded_simulation(chk)
 
@@ -350,6 +351,12 @@ def validation_failures(limit=5):
     import scipp as sc
     from vf.realrun import real_module
     dc = real_module('chopper.disk_chopper')
+    check_edges = getattr(dc, '_check_edges', None)
+    if check_edges is None:
+        # the validation is not reachable under that private name: go through the public constructor, which validates its slits
+        def check_edges(begin, end):
+            dc.DiskChopper(axle_position=sc.vector([0.0, 0.0, 1.0], unit='m'), frequency=sc.scalar(14.0, unit='Hz'), beam_position=sc.scalar(0.0, unit='deg'),
+                           phase=sc.scalar(0.0, unit='deg'), slit_begin=begin, slit_end=end)
     fails = []
     n = 0
     grid = list(range(-30, 400, 35))
@@ -371,7 +378,7 @@ def validation_failures(limit=5):
                     begin = sc.array(dims=['slit'], values=[float(c[0]) * f_ for c in order], unit=unit)
                     end = sc.array(dims=['slit'], values=[float(c[1]) * f_ for c in order], unit=unit)
                     try:
-                        dc._check_edges(begin, end)
+                        check_edges(begin, end)
                         rejected = False
                     except Exception:  # noqa: BLE001 -- any refusal counts
                         rejected = True
@@ -381,7 +388,7 @@ def validation_failures(limit=5):
     # malformed inputs
     for label, (b, e) in {'begin>end': ([10.0, 50.0], [5.0, 60.0]), 'sizes differ': ([10.0], [20.0, 30.0])}.items():
         try:
-            dc._check_edges(sc.array(dims=['slit'], values=b, unit='deg'), sc.array(dims=['slit'], values=e, unit='deg'))
+            check_edges(sc.array(dims=['slit'], values=b, unit='deg'), sc.array(dims=['slit'], values=e, unit='deg'))
             fails.append({'id': label, 'problem': f'{label} accepted'})
         except Exception:  # noqa: BLE001 -- any refusal counts
             pass
